@@ -47,9 +47,10 @@ pending-strategy sharing + ledger) was already expanded with at least the same r
 Preconditions of the enumeration (documented, derived from the task state machine): a task is
 placed only when it is not resident in that cluster instance; a profile is loaded on a worker only
 when it is not loaded there.
-Resource vectors mixing an 'any' key with specific keys of the same name are explored too, but
-what fails only there is reported under `observations`, not `violations` (both workload loaders
-build homogeneous vectors).
+Resource vectors mixing an 'any' key with specific keys of the same name are explored too; what
+fails there in `__copy__` (the copy replays allocations against different keys and can even
+raise) is reported under `observations`, not `violations` (both workload loaders build
+homogeneous vectors); every other clause failing there is a violation as everywhere else.
 """
 import hashlib
 import multiprocessing
@@ -438,6 +439,8 @@ def configs(tier, pid):
                    multis=[[(G, "any", 1), (G, "1", 1)], [(G, "1", 1), (G, "2", 1)], [(G, "any", 2)]], comps=comps),
             Config("R.cany2_g1", "resources", [[(C, "any", 2), (G, "1", 1)]], reqs=[(C, "any"), (G, "any"), (G, "2")],
                    multis=[[(C, "any", 1), (G, "any", 1)], [(C, "any", 2), (G, "1", 1)], [(C, "any", 1), (G, "2", 1)]], comps=comps, depth=(4, 6)),
+            Config("R.g1_g2x2", "resources", [[(G, "1", 1), (G, "2", 2)]], reqs=[(G, "any"), (G, "2")],
+                   multis=[[(G, "any", 2), (G, "2", 1)]], comps=["c1", "c2"], depth=(4, 6)),
             Config("R.g1", "resources", [[(G, "1", 1)]], reqs=[(G, "any"), (G, "1")],
                    multis=[[(G, "any", 1), (G, "1", 1)], [(G, "1", 1)]], comps=comps),
             # mixed vectors (outside the loaders' homogeneity precondition): observations only
@@ -905,20 +908,12 @@ def transition(cfg, op, out, L, before, after):
     raise ValueError(op)
 
 
-_STATIC = {}
-
-
 def build_world(cfg, seed):
-    """fresh real cluster `A`; the immutable cast (tasks, strategies, profiles, request resources)
-    is built once per process and configuration"""
-    st = _STATIC.get((cfg.name, seed))
-    if st is None:
-        st = dict(_prelude())
-        st["SEED"] = seed
-        exec(_code(cfg.static_src), st)
-        _STATIC[(cfg.name, seed)] = st
-    ns = dict(st)
-    exec(_code(cfg.cluster_src), ns)
+    """fresh real objects for one history: the cast (tasks, strategies, profiles, request
+    resources) and the cluster `A` are all rebuilt, so nothing leaks from one history into the next"""
+    ns = dict(_prelude())
+    ns["SEED"] = seed
+    exec(_code(cfg.build_src), ns)
     return ns
 
 
@@ -1435,7 +1430,9 @@ def main():
         if v.get("can") is True and v["hist"] and v["hist"][-1][0] == "place":
             what += "; can_accomodate_strategy returned True just before"
         script = replay_script(cfg, v, args.seed)
-        if not v["homog"]:
+        if not v["homog"] and "__copy__" in vid:
+            # copying a vector that mixes an 'any' key with specific keys of the same name replays
+            # the allocations against different keys; outside the loaders' homogeneity precondition
             observations.append({"id": "mixed_vector:" + vid, "count": n, "what": what[:1500]})
             continue
         R.violation(vid, what, script)
